@@ -264,6 +264,7 @@ Definition parse_sbit (s : dstate) : pres :=
 Definition parse_trns (s : dstate) : pres :=
   let i := the_info s in
   if anc_has KTrns i then (s, Err (EFormat FDuplicateChunk))
+  else if have_idat s && negb (i_color i =? 3) then (s, Err (EFormat FAfterIdat))
   else match reserve s (zlen (c_raw s)) with
        | Ok s =>
          let v := c_raw s in
@@ -558,7 +559,7 @@ Definition parse_u32 (s : dstate) (kind : u32kind) (bytes : list Z) : sres :=
     if val =? sum then
       if ty =? ct_IEND then (s <| st := None |>, Ok (EImageEnd, []))
       else goto s (SU32 KLen []) (EChunkComplete val ty) []
-    else if o_skip_anc_crc (opts s) && negb (is_critical ty) then goto s (SU32 KLen []) ENothing []
+    else if o_skip_anc_crc (opts s) && negb (is_critical ty) && negb (ty =? ct_fdAT) then goto s (SU32 KLen []) ENothing []
     else poison s (EFormat FCrcMismatch)
   | KSeq =>
     if c_remaining s <? 4 then (s <| st := None |>, Panic 931)      (* debug_assert!(remaining >= 4) / subtraction *)
@@ -662,7 +663,8 @@ Definition update (s : dstate) (buf : list Z) : dstate * ures :=
 
 (* StreamingDecoder::reset *)
 Definition reset_model (s : dstate) : dstate :=
-  s <| st := Some (SU32 KSig1 []) |> <| c_crc := crc_init |> <| c_remaining := 0 |> <| c_raw := [] |>
-    <| infl := zreset (infl s) |> <| info := None |> <| seq := None |> <| have_idat := false |>.
+  s <| st := Some (SU32 KSig1 []) |> <| c_type := 0 |> <| c_crc := crc_init |> <| c_remaining := 0 |> <| c_raw := [] |>
+    <| infl := zreset (infl s) |> <| info := None |> <| seq := None |> <| have_idat := false |>
+    <| have_iccp := false |> <| ready_idat := true |> <| ready_fdat := false |>.
 
 End WithInflate.
